@@ -273,6 +273,136 @@ func runC17(c *an.Ctx) {
 	}
 	c.Min("O5 stores to BasicDirectory.node", nNode, 1)
 
+	// O5b: a directory built around an existing node takes the estimator's other
+	// inputs (mode and mtime) from it as well
+	storesField := func(f *ssa.Function, fld *types.Var, base ssa.Value) bool {
+		for _, g := range an.WithClosures(f) {
+			for _, st := range an.FieldStores(g, fld) {
+				if _, b := an.FieldOf(st.Addr); b != nil && (an.SameObj(b, base) || g != f) {
+					return true
+				}
+			}
+		}
+		for _, call := range an.AllCalls(f) {
+			g := an.Callee(call).Static
+			if g == nil || g.Blocks == nil || g.Pkg != f.Pkg {
+				continue
+			}
+			passes := false
+			for _, a := range call.Common().Args {
+				if an.SameObj(a, base) {
+					passes = true
+				}
+			}
+			if passes && len(an.FieldStores(g, fld)) > 0 {
+				return true
+			}
+		}
+		return false
+	}
+	if c16IOR.bMode != nil && c16IOR.bMtime != nil {
+		for _, f := range fns {
+			for _, st := range an.FieldStores(f, fNode) {
+				_, base := an.FieldOf(st.Addr)
+				fromOutside := false
+				for _, r := range an.Roots(st.Val, nil) {
+					if _, isPar := r.(*ssa.Parameter); isPar {
+						fromOutside = true
+					}
+				}
+				if !fromOutside || base == nil {
+					continue
+				}
+				c.Check(storesField(f, c16IOR.bMode, base) && storesField(f, c16IOR.bMtime, base), "O5", "R-SIB", an.FuncName(f), "existing-node=>mode-and-mtime-taken-from-it", st.Pos(),
+					"mode and mtime are set together with an existing node",
+					"a BasicDirectory is built around an existing node without setting both mode and mtime from it: dataFieldSerializedSize(d.mode, d.mtime) then describes another data field than the node's, so the block-size estimate is off for nodes that carry mode/mtime")
+			}
+		}
+	}
+
+	// O5c: changing the estimation mode of an existing BasicDirectory recomputes
+	// the estimate (except where the mode is known to be unchanged)
+	if set := p.Func(c16IO, "BasicDirectory", "SetSizeEstimationMode"); set != nil {
+		var fMode *types.Var
+		an.Instrs(set, func(in ssa.Instruction) {
+			if st, ok := in.(*ssa.Store); ok {
+				if fl, b := an.FieldOf(st.Addr); fl != nil && b != nil && an.SameObj(b, set.Params[0]) && len(set.Params) == 2 {
+					t := fl.Type()
+					if pt, isP := t.(*types.Pointer); isP {
+						t = pt.Elem()
+					}
+					if types.Identical(t, set.Params[1].Type()) {
+						fMode = fl
+					}
+				}
+			}
+		})
+		nSet := 0
+		for _, f := range fns {
+			if fMode == nil || f.Parent() != nil || f.Signature.Recv() == nil || !an.TypeIs(f.Signature.Recv().Type(), c16IO, "BasicDirectory") {
+				continue
+			}
+			for _, st := range an.FieldStores(f, fMode) {
+				_, base := an.FieldOf(st.Addr)
+				if base == nil || !an.SameObj(base, f.Params[0]) {
+					continue
+				}
+				nSet++
+				blocked := map[ssa.Instruction]bool{}
+				for _, cc := range an.LocalCallers([]*ssa.Function{f}, comp) {
+					if an.Recv(cc) != nil && an.SameObj(an.Recv(cc), base) {
+						blocked[cc] = true
+					}
+				}
+				// edges on which the new mode equals the previous one
+				var olds []ssa.Value
+				for _, call := range an.AllCalls(f) {
+					if an.Callee(call).Name == "GetSizeEstimationMode" {
+						if v := an.CallValue(call); v != nil {
+							olds = append(olds, v)
+						}
+					}
+				}
+				al := an.Aliases(olds...)
+				same := an.CmpEdges(f, func(op token.Token, a, b ssa.Value) (bool, bool) {
+					isPar := func(v ssa.Value) bool {
+						for _, r := range an.Roots(v, nil) {
+							if par, ok := r.(*ssa.Parameter); ok && par != f.Params[0] {
+								return true
+							}
+						}
+						return false
+					}
+					pa, pb := isPar(a), isPar(b)
+					if !((pa && al[b]) || (pb && al[a])) {
+						return false, false
+					}
+					switch op {
+					case token.EQL:
+						return true, false
+					case token.NEQ:
+						return false, true
+					}
+					return false, false
+				})
+				// paths on which the mode is known unchanged are cut; every other path recomputes
+				ok := len(blocked) > 0
+				for _, r := range an.Returns(f) {
+					if f.Recover != nil && r.Block() == f.Recover {
+						continue
+					}
+					if ok && an.Reaches(f, st, r, same, blocked) {
+						ok = false
+					}
+				}
+				c.Check(ok, "O5", "R-POST", an.FuncName(f), "mode-store=>recompute-unless-unchanged", st.Pos(),
+					"estimation mode changed and the estimate recomputed",
+					"the size estimation mode of an existing BasicDirectory is changed without recomputing estimatedSize (other than where the mode is known to be unchanged): the estimate stays in the units of the old mode, so in block mode it is not the serialized size")
+			}
+		}
+		c.Min("O5 stores of the estimation mode in BasicDirectory methods", nSet, 1)
+	}
+
 	// ---- O2: schema facts
 	c17Schema(c)
 
@@ -832,6 +962,47 @@ func c17EncoderVsEstimator(c *an.Ctx) {
 						nanoSites = append(nanoSites, site{u, e.To().Instrs[0]})
 					}
 				}
+			}
+		}
+		if i == 1 {
+			// the estimator's own case split on the seconds and its nanos term
+			for _, u := range units {
+				rootedAt := func(v ssa.Value, name string) bool {
+					for _, r := range an.Roots(v, nil) {
+						if isCallOn(u, name)(r) {
+							return true
+						}
+					}
+					return false
+				}
+				an.Instrs(u.f, func(in ssa.Instruction) {
+					switch in := in.(type) {
+					case *ssa.BinOp:
+						op, a, b := in.Op, in.X, in.Y
+						if _, isK := an.ConstOf(a); isK {
+							op, a, b = an.SwapCmp(op), b, a
+						}
+						k, isK := an.ConstOf(b)
+						if !isK || k.String() != "0" || !rootedAt(a, "Unix") {
+							return
+						}
+						switch op {
+						case token.GEQ, token.LSS, token.GTR, token.LEQ, token.EQL, token.NEQ:
+							c.Check(op == token.GEQ || op == token.LSS, "O3", "R-CMP", an.FuncName(s.f), "seconds-sign-split-at-0", in.Pos(),
+								"seconds are split into 'secs >= 0' (varint of the value) and 'secs < 0' (10 bytes)",
+								role+": mtime.Unix() is compared with 0 as 'secs "+op.String()+" 0': protobuf encodes exactly the negative int64 values as 10-byte varints, so the seconds term of the estimate is wrong for the value(s) on the wrong side of the split (e.g. the Unix epoch with nanoseconds)")
+						}
+					case ssa.CallInstruction:
+						g := an.Callee(in).Static
+						if g == nil || g.Pkg != s.f.Pkg || g.Signature.Recv() != nil || g.Signature.Params().Len() != 1 || !c17IsUint64(g.Signature.Params().At(0).Type()) {
+							return
+						}
+						if rootedAt(in.Common().Args[0], "Nanosecond") {
+							c.Check(false, "O3", "R-SIB", an.FuncName(s.f), "nanos-term-is-fixed-width", in.Pos(), "",
+								role+": the nanos term is computed as a varint length of mtime.Nanosecond(), but IPFSTimestamp.Nanos is a fixed32 field (tag + 4 bytes, see O2): the estimate differs from the serialized size for most sub-second times")
+						}
+					}
+				})
 			}
 		}
 		top := units[0]
